@@ -293,7 +293,16 @@ func (ex *Exec) conv(tDst, tSrc types.Type, x Val) Val {
 		if eb != nil && eb.Kind() == types.Int32 {
 			cs, ok := s.concrete()
 			if !ok {
-				panic(inconclusive{"[]rune(symbolic string)"})
+				// symbolic bytes: one rune per byte as long as every byte is ASCII (decided per byte, no fork
+				// when the byte's domain is ASCII); anything else is outside what the engine models
+				cells := make([]Val, len(s))
+				for i, b := range s {
+					if !ex.branch(Cmp(OpULt, b, byteConsts[0x80])) {
+						panic(inconclusive{"[]rune(string with symbolic non-ASCII bytes)"})
+					}
+					cells[i] = Resize(b, 32, false)
+				}
+				return SliceV{A: cells}
 			}
 			var cells []Val
 			for _, r := range cs {
